@@ -366,6 +366,26 @@ Theorem contract_payload_wrapped_unconditionally :
 Proof. exact (conj eq_refl eq_refl). Qed.
 Print Assumptions contract_payload_wrapped_unconditionally.
 
+(** injectSenderIntoPayload appends the sender word UNCONDITIONALLY (straight-line code whose only
+    condition is the error of zeroPadBytes: the translator refuses any branch on the payload's
+    content), and on the whole way of a run no function reports success (a nil error) before the
+    call that enqueues the message / hands the run on (a nil-error return before it is refused by
+    the translator): "the request succeeded" implies "PutMessageInQueue was called". *)
+Theorem sender_word_appended_unconditionally :
+  Gen.C17.inject_stmts =
+    ["appendSenderBytes, err := zeroPadBytes(senderBytes, 32)"; "if err != nil { return nil, err }";
+     "return append(payload, appendSenderBytes...), nil"]%string /\
+  Gen.C17.success_returns =
+    ["Keeper.ExecuteJob: returns what AddSmartContractExecutionToConsensus returns";
+     "Keeper.AddSmartContractExecutionToConsensus: return id, nil after PutMessageInQueue";
+     "Keeper.ScheduleNow: return msgID, nil after ExecuteJob";
+     "Keeper.ExecuteJob: returns what ScheduleNow returns";
+     "msgServer.ExecuteJob: return &types.MsgExecuteJobResponse{ MessageID: msgID, }, nil after ExecuteJob";
+     "customMessenger.executeJob: return nil, nil, nil, nil after ExecuteJob";
+     "customLegacyMessenger.DispatchMsg: return nil, nil, nil, nil after ExecuteJob"]%string.
+Proof. exact (conj eq_refl eq_refl). Qed.
+Print Assumptions sender_word_appended_unconditionally.
+
 (** The model mirrors the source as it is now (translated on every check): pad size and append
     order of injectSenderIntoPayload, the order sender-then-contract of the suffix source, what
     feeds each SubmitLogicCall / Message field, the two payload guards of ScheduleNow, the
